@@ -2587,14 +2587,6 @@ theorem div_tt_any {n m : TwoFloat} (nv : n.Valid) (nw : n.WF) (mv : m.Valid) (m
       rw [abs_mul_pos_right _ hUi]; exact mul_le_mul_of_nonneg_right hA hUi.le
     omega
 
-/-- the side condition on a Newton numerator `n` (with denominator `m`): exactly zero, or in the range in which
-the long division is known to return a normalised pair (`F64.DivRange`: `|n.hi| ≥ 2^-1010` and
-`|n.hi / m.hi| ≥ 2^-1010`) -/
-def NumOK (n m : TwoFloat) : Prop :=
-  n.V = 0 ∨ (2 ^ 64 ≤ |n.hi.toInt| ∧ 2 ^ 64 * |m.hi.toInt| ≤ |n.hi.toInt * (unit : Int)|)
-
-instance (n m : TwoFloat) : Decidable (NumOK n m) := by unfold NumOK; infer_instance
-
 /-- range side conditions of the division in the Newton step -/
 theorem step_div_ranges {a n m : TwoFloat} {C : ℝ} (nv : n.Valid) (mv : m.Valid)
     (c1 : 2 ^ 773 ≤ |C|) (c2 : |C| ≤ 2 ^ 1375)
@@ -3066,10 +3058,6 @@ theorem cbrt_init {a : TwoFloat} {C : ℝ} (hva : a.Valid) (hwa : a.WF) (ha0 : a
     rw [e', abs_neg]; exact key
 
 
-/-- numerator and denominator of the Newton correction -/
-def cbrtNum (x a : TwoFloat) : TwoFloat := subTT (mulTT (mulTT x x) x) a
-def cbrtDen (x : TwoFloat) : TwoFloat := mulFT (f64lit 0x4008000000000000) (mulTT x x)
-
 /-- `TwoFloat::cbrt` on a non-zero high word: two Newton steps from the correctly rounded `f64` cube root -/
 theorem cbrt_eq (x : TwoFloat) (hf : x.hi.is_finite = true) (h0 : x.hi.toInt ≠ 0) :
     TwoFloat.cbrt x
@@ -3090,15 +3078,11 @@ theorem exists_cbrt (y : ℝ) : ∃ C : ℝ, C ^ 3 = y := by
     have := Real.rpow_inv_natCast_pow (x := -y) (n := 3) (by linarith) (by norm_num)
     rw [Odd.neg_pow (by decide), this, _root_.neg_neg]
 
-/-- **`TwoFloat::cbrt`, value level, PARTIAL** (side conditions `NumOK` on the two Newton numerators): for a valid,
-well-formed `x` with `|x.hi| ∈ [2^-900, 2^900]` the result is a valid well-formed pair within `7·2^-106` (relative) of
-the real cube root; in scaled units: `C³ = x.V·2^2148`, `|R − C| ≤ 7·2^-106·|C|`. -/
-theorem cbrt_val_of_numOK {x : TwoFloat} (hv : x.Valid) (hw : x.WF)
-    (hlo : 2 ^ 174 ≤ |x.hi.toInt|) (hhi : |x.hi.toInt| ≤ 2 ^ 1974)
-    (H1 : NumOK (cbrtNum (convert.impl_From_f64_for_TwoFloat.from (F64.cbrt x.hi)) x)
-      (cbrtDen (convert.impl_From_f64_for_TwoFloat.from (F64.cbrt x.hi))))
-    (H2 : NumOK (cbrtNum (cbrtStep (convert.impl_From_f64_for_TwoFloat.from (F64.cbrt x.hi)) x) x)
-      (cbrtDen (cbrtStep (convert.impl_From_f64_for_TwoFloat.from (F64.cbrt x.hi)) x))) :
+/-- **`TwoFloat::cbrt`, value level**: for every valid, well-formed `x` with `|x.hi| ∈ [2^-900, 2^900]` (both signs) the
+result is a valid well-formed pair within `7·2^-106` (relative) of the real cube root; in scaled units:
+`C³ = x.V·2^2148`, `|R − C| ≤ 7·2^-106·|C|`. -/
+theorem cbrt_val {x : TwoFloat} (hv : x.Valid) (hw : x.WF)
+    (hlo : 2 ^ 174 ≤ |x.hi.toInt|) (hhi : |x.hi.toInt| ≤ 2 ^ 1974) :
     (TwoFloat.cbrt x).Valid ∧ (TwoFloat.cbrt x).WF ∧
     ∃ C : ℝ, C ^ 3 = (x.V : ℝ) * (2 ^ 1074) ^ 2 ∧
       2 ^ 106 * |((TwoFloat.cbrt x).V : ℝ) - C| ≤ 7 * |C| := by
@@ -3109,60 +3093,12 @@ theorem cbrt_val_of_numOK {x : TwoFloat} (hv : x.Valid) (hw : x.WF)
   obtain ⟨C, hC⟩ := exists_cbrt ((x.V : ℝ) * (2 ^ 1074) ^ 2)
   obtain ⟨v0, w0, e0⟩ := cbrt_init hv hw h0 hC
   have hE0 : (151 / 100 : ℝ) * (1 / 2 ^ 53) ≤ 1 / 2 ^ 50 := by norm_num
-  obtain ⟨v1, w1, e1⟩ := cbrt_step v0 w0 hv hw hlo hhi hC (by positivity) hE0 e0 (Or.inl H1)
+  obtain ⟨v1, w1, e1⟩ := cbrt_step v0 w0 hv hw hlo hhi hC (by positivity) hE0 e0
   have hE1 : ((1001 / 1000 : ℝ) * ((151 / 100) * (1 / 2 ^ 53)) ^ 2 + (13 / 2) * (1 / 2 ^ 106)) ≤ 9 * (1 / 2 ^ 106) := by
     norm_num
   have e1' : |((cbrtStep (convert.impl_From_f64_for_TwoFloat.from (F64.cbrt x.hi)) x).V : ℝ) - C|
       ≤ (9 * (1 / 2 ^ 106)) * |C| := le_trans e1 (mul_le_mul_of_nonneg_right hE1 (abs_nonneg C))
-  obtain ⟨v2, w2, e2⟩ := cbrt_step v1 w1 hv hw hlo hhi hC (by positivity) (by norm_num) e1' (Or.inl H2)
-  rw [cbrt_eq x hv.1 h0]
-  refine ⟨v2, w2, C, hC, ?_⟩
-  have hE2 : ((1001 / 1000 : ℝ) * (9 * (1 / 2 ^ 106)) ^ 2 + (13 / 2) * (1 / 2 ^ 106)) ≤ 7 / 2 ^ 106 := by
-    norm_num
-  have := le_trans e2 (mul_le_mul_of_nonneg_right hE2 (abs_nonneg C))
-  have hp : (0 : ℝ) < 2 ^ 106 := by positivity
-  rw [show (7 : ℝ) / 2 ^ 106 * |C| = 7 * |C| / 2 ^ 106 by ring, le_div_iff₀ hp] at this
-  linarith
-
-/-- **`TwoFloat::cbrt`, value level, UNCONDITIONAL on `|x.hi| ∈ [2^-59, 2^900]`**: for every valid, well-formed `x`
-in this range the result is a valid well-formed pair within `7·2^-106` (relative) of the real cube root.  (Below
-`2^-59` the Newton numerator can fall below the range in which the long division is analysed — there the statement
-holds under the side conditions `NumOK`, `cbrt_val_of_numOK`.) -/
-theorem cbrt_val_mid {x : TwoFloat} (hv : x.Valid) (hw : x.WF)
-    (hlo : 2 ^ 1015 ≤ |x.hi.toInt|) (hhi : |x.hi.toInt| ≤ 2 ^ 1974) :
-    (TwoFloat.cbrt x).Valid ∧ (TwoFloat.cbrt x).WF ∧
-    ∃ C : ℝ, C ^ 3 = (x.V : ℝ) * (2 ^ 1074) ^ 2 ∧
-      2 ^ 106 * |((TwoFloat.cbrt x).V : ℝ) - C| ≤ 7 * |C| := by
-  have hlo' : (2 : Int) ^ 174 ≤ |x.hi.toInt| := le_trans (pow_le_pow_right₀ (by norm_num) (by norm_num)) hlo
-  have h0 : x.hi.toInt ≠ 0 := by
-    intro h; rw [h, abs_zero] at hlo
-    have : (0 : Int) < 2 ^ 1015 := by positivity
-    omega
-  obtain ⟨C, hC⟩ := exists_cbrt ((x.V : ℝ) * (2 ^ 1074) ^ 2)
-  -- the cube root is at least `2^-20`
-  have hC54 : (2 : ℝ) ^ 1054 ≤ |C| := by
-    obtain ⟨h1, -⟩ := hi_real hv
-    have c1 : (2 : ℝ) ^ 1015 ≤ |(x.hi.toInt : ℝ)| := by exact_mod_cast hlo
-    have hC3 : |C| ^ 3 = |(x.V : ℝ)| * (2 ^ 1074) ^ 2 := by
-      rw [← abs_pow, hC, abs_mul, abs_of_pos (by positivity : (0 : ℝ) < (2 ^ 1074) ^ 2)]
-    by_contra hc
-    rw [not_le] at hc
-    have : |C| ^ 3 < (2 ^ 1054) ^ 3 := pow_lt_pow_left₀ hc (abs_nonneg C) (by norm_num)
-    rw [hC3] at this
-    have e1 : ((2 : ℝ) ^ 1054) ^ 3 = (1 / 2) * 2 ^ 1015 * (2 ^ 1074) ^ 2 := by norm_num
-    have e2 : (0 : ℝ) < (2 ^ 1074) ^ 2 := by positivity
-    have u1 : (1 : ℝ) / 2 ^ 53 ≤ 1 / 100 := by norm_num
-    have n0 := abs_nonneg (x.hi.toInt : ℝ)
-    have l1 : (99 / 100) * 2 ^ 1015 ≤ |(x.V : ℝ)| := by nlinarith
-    nlinarith
-  obtain ⟨v0, w0, e0⟩ := cbrt_init hv hw h0 hC
-  have hE0 : (151 / 100 : ℝ) * (1 / 2 ^ 53) ≤ 1 / 2 ^ 50 := by norm_num
-  obtain ⟨v1, w1, e1⟩ := cbrt_step v0 w0 hv hw hlo' hhi hC (by positivity) hE0 e0 (Or.inr hC54)
-  have hE1 : ((1001 / 1000 : ℝ) * ((151 / 100) * (1 / 2 ^ 53)) ^ 2 + (13 / 2) * (1 / 2 ^ 106)) ≤ 9 * (1 / 2 ^ 106) := by
-    norm_num
-  have e1' : |((cbrtStep (convert.impl_From_f64_for_TwoFloat.from (F64.cbrt x.hi)) x).V : ℝ) - C|
-      ≤ (9 * (1 / 2 ^ 106)) * |C| := le_trans e1 (mul_le_mul_of_nonneg_right hE1 (abs_nonneg C))
-  obtain ⟨v2, w2, e2⟩ := cbrt_step v1 w1 hv hw hlo' hhi hC (by positivity) (by norm_num) e1' (Or.inr hC54)
+  obtain ⟨v2, w2, e2⟩ := cbrt_step v1 w1 hv hw hlo hhi hC (by positivity) (by norm_num) e1'
   rw [cbrt_eq x hv.1 h0]
   refine ⟨v2, w2, C, hC, ?_⟩
   have hE2 : ((1001 / 1000 : ℝ) * (9 * (1 / 2 ^ 106)) ^ 2 + (13 / 2) * (1 / 2 ^ 106)) ≤ 7 / 2 ^ 106 := by
